@@ -1,64 +1,313 @@
-//! placeholder smoke driver (replaced below)
-use std::time::Duration;
+//! I->S for spec/Sozu.tla: seeded random operation sequences on the REAL composed system
+//! (vh::sozukit: real CommandHub + real worker threads over real channels), recorded as an ndjson trace
+//! that TLC validates against spec/Trace_Sozu.tla.
+//!
+//! One sequential client per run sends, through the hub's unix command socket, commands from the
+//! C07/C08 universe (listeners add / activate / deactivate / remove / patch, clusters, backends,
+//! http / https / tcp frontends on addresses with and without a listener, certificates good and
+//! bad, commands the main process refuses, commands only the workers refuse), SaveState to the run's
+//! state file, LoadState of it; the environment kills workers (channel closed, hub has noticed),
+//! registers late workers (bootstrapped from the hub's current state) and, at the end of some runs, a
+//! mute worker (every fan-out then fails by time-out). After every step the observable state is
+//! recorded: ListWorkers run states, QueryClusterById / QueryClustersHashes answers of the main
+//! process and of every worker, and the complete configuration a scratch SaveState writes.
+//!
+//! stdout: {"kind":"violation"} lines for what needs no spec to be wrong (hub / worker thread died,
+//! unreadable state file, rig errors), {"kind":"summary"}.
 
-use serde_json::json;
-use vh::cfgmodel::Conc;
+use std::collections::BTreeMap;
+use std::io::Write;
+use std::sync::atomic::{AtomicUsize, Ordering};
+use std::sync::{Arc, Mutex};
+use std::time::{Duration, Instant};
+
+use serde_json::{Value, json};
+use sozu_command_lib::proto::command::request::RequestType;
+use vh::cfgmodel::Rng;
 use vh::sozukit::*;
 
-const T: Duration = Duration::from_secs(6);
+fn ldef(k: &str, a: &str) -> Value {
+    if k == "https" {
+        // what ListenerBuilder::new_https(..).to_tls(None) projects to (see sozukit::concretise)
+        return json!({"k": k, "a": a, "active": false, "ft": 60, "exp": false, "sid": "none", "knob": 0, "shr": 0,
+            "ansP": true, "a404": "-", "a503": "-", "alpn": ["h2", "http/1.1"], "sni": "none", "mf": 0});
+    }
+    json!({"k": k, "a": a, "active": false, "ft": if k == "udp" { 30 } else { 60 }, "exp": false, "sid": "none", "knob": 0, "shr": 0,
+        "ansP": false, "a404": "-", "a503": "-", "alpn": [], "sni": "none", "mf": 0})
+}
+
+fn front(p: &str, a: &str, cl: &str, pos: &str) -> Value {
+    json!({"p": p, "a": a, "h": "h1", "pk": "prefix", "pv": "/", "m": "none", "cl": cl, "pos": pos, "tg": "t0", "rd": "none"})
+}
+
+/// (weight, command)
+fn universe() -> Vec<(u32, Value)> {
+    let mut u: Vec<(u32, Value)> = Vec::new();
+    let listeners = [("http", "A1"), ("tcp", "A2"), ("https", "A3")];
+    for (k, a) in listeners {
+        let verb = match k { "http" => "AddHttpListener", "tcp" => "AddTcpListener", _ => "AddHttpsListener" };
+        u.push((6, json!({"verb": verb, "v": ldef(k, a)})));
+        u.push((5, json!({"verb": "ActivateListener", "k": k, "a": a})));
+        u.push((3, json!({"verb": "DeactivateListener", "k": k, "a": a})));
+        u.push((2, json!({"verb": "RemoveListener", "k": k, "a": a})));
+    }
+    // a listener kind that is never there, an unknown listener type
+    u.push((1, json!({"verb": "ActivateListener", "k": "http", "a": "A4"})));
+    u.push((1, json!({"verb": "RemoveListener", "k": "tcp", "a": "A4"})));
+    u.push((1, json!({"verb": "RemoveListener", "k": "bad", "a": "A1"})));
+    for p in [json!({"ft": 77}), json!({"ft": 77, "sid": "bad header"}), json!({"ft": 78, "knob": 0}), json!({"sid": "X-Id"})] {
+        u.push((1, json!({"verb": "UpdateHttpListener", "a": "A1", "p": p})));
+    }
+    u.push((1, json!({"verb": "UpdateTcpListener", "a": "A2", "p": {"ft": 77}})));
+    u.push((1, json!({"verb": "UpdateTcpListener", "a": "A1", "p": {"ft": 77}})));
+    for c in ["c1", "c2"] {
+        u.push((6, json!({"verb": "AddCluster", "v": {"c": c, "sticky": false, "lb": "rr", "hc": "none"}})));
+        u.push((2, json!({"verb": "AddCluster", "v": {"c": c, "sticky": true, "lb": "rnd", "hc": "h1"}})));
+        u.push((1, json!({"verb": "AddCluster", "v": {"c": c, "sticky": false, "lb": "rr", "hc": "hbad"}})));
+        u.push((2, json!({"verb": "RemoveCluster", "c": c})));
+        u.push((1, json!({"verb": "SetHealthCheck", "c": c, "hc": "h2"})));
+        u.push((1, json!({"verb": "SetHealthCheck", "c": c, "hc": "hbad"})));
+        u.push((1, json!({"verb": "RemoveHealthCheck", "c": c})));
+        for (b, x) in [("b1", "x1"), ("b1", "x2")] {
+            u.push((3, json!({"verb": "AddBackend", "c": c, "b": b, "x": x, "w": 0})));
+            u.push((2, json!({"verb": "RemoveBackend", "c": c, "b": b, "x": x})));
+        }
+        u.push((3, json!({"verb": "AddTcpFrontend", "c": c, "a": "A2", "t": "t0"})));
+        u.push((1, json!({"verb": "AddTcpFrontend", "c": c, "a": "A4", "t": "t0"})));
+        u.push((2, json!({"verb": "RemoveTcpFrontend", "c": c, "a": "A2", "t": "t0"})));
+        for (p, a) in [("http", "A1"), ("http", "A4"), ("https", "A3"), ("https", "A1")] {
+            let (add, rem) = if p == "http" { ("AddHttpFrontend", "RemoveHttpFrontend") } else { ("AddHttpsFrontend", "RemoveHttpsFrontend") };
+            u.push((3, json!({"verb": add, "f": front(p, a, c, "tree")})));
+            u.push((2, json!({"verb": rem, "f": front(p, a, c, "tree")})));
+        }
+    }
+    u.push((1, json!({"verb": "AddHttpFrontend", "f": front("http", "A1", "c1", "bad")})));
+    for a in ["A3", "A1"] {
+        for (k, n) in [("k1", json!([])), ("k2", json!(["ov"])), ("kp", json!(["ov"])), ("kb", json!([]))] {
+            u.push((2, json!({"verb": "AddCertificate", "a": a, "k": k, "n": n})));
+        }
+        for fp in ["k1", "k2", "nothex"] {
+            u.push((1, json!({"verb": "RemoveCertificate", "a": a, "fp": fp})));
+        }
+        for (old, k) in [("k1", "k2"), ("k1", "kb"), ("k1", "kp"), ("k2", "k1")] {
+            u.push((1, json!({"verb": "ReplaceCertificate", "a": a, "old": old, "k": k, "n": if k == "kp" || k == "k2" { json!(["ov"]) } else { json!([]) }})));
+        }
+    }
+    u
+}
+
+fn pick<'a>(u: &'a [(u32, Value)], rng: &mut Rng) -> &'a Value {
+    let total: u32 = u.iter().map(|x| x.0).sum();
+    let mut r = rng.next(total as usize) as u32;
+    for (w, c) in u {
+        if r < *w {
+            return c;
+        }
+        r -= *w;
+    }
+    &u[0].1
+}
+
+struct RunOut {
+    events: Vec<Value>,
+    violations: Vec<(String, Value)>,
+    ops: usize,
+    failures: usize,
+    oks: usize,
+    faults: usize,
+    verbs: BTreeMap<String, (u64, u64)>,
+}
+
+fn one_run(run: usize, seed: u64, steps: usize, index: u64, timeout_s: u32, certs: bool) -> RunOut {
+    let mut out = RunOut { events: Vec::new(), violations: Vec::new(), ops: 0, failures: 0, oks: 0, faults: 0, verbs: BTreeMap::new() };
+    let mut rng = Rng((seed.wrapping_mul(7919) + run as u64).wrapping_mul(0x9E3779B97F4A7C15) | 1);
+    let conc = conc_for(index);
+    let uni: Vec<(u32, Value)> = universe()
+        .into_iter()
+        .filter(|(_, c)| certs || !c["verb"].as_str().unwrap_or("").contains("Certificate"))
+        .collect();
+    let n_init = 1 + rng.next(3);
+    let kinds = vec![Kind::Real; n_init];
+    let mut rig = match Rig::start(&kinds, timeout_s) {
+        Ok(r) => r,
+        Err(e) => {
+            out.violations.push(("rig:start".into(), json!({"error": e})));
+            return out;
+        }
+    };
+    let deadline = Duration::from_secs(timeout_s as u64 + 4);
+    let save_path = rig.dir().join("saved.json").to_string_lossy().to_string();
+    out.events.push(json!({"ev": "reset", "run": run, "init": (0..n_init).map(|i| i.to_string()).collect::<Vec<_>>()}));
+    let with_mute = rng.next(6) == 0;
+    let mut next_real = n_init as u32;
+    let total_steps = steps + if with_mute { 3 } else { 0 };
+    let cert_tokens: Vec<&str> = if certs { vec!["k1", "k2", "kp"] } else { vec![] };
+    'steps: for step in 0..total_steps {
+        let mut hang = false;
+        if with_mute && step == steps {
+            // from here on every fan-out waits for the time-out
+            match rig.start_worker_id(7, Kind::Mute) {
+                Ok(idx) => {
+                    out.faults += 1;
+                    out.events.push(json!({"ev": "start", "run": run, "w": "7", "boot": rig.workers[idx].boot_requests}));
+                }
+                Err(e) => {
+                    out.violations.push(("hub:start-worker".into(), json!({"error": e})));
+                    break 'steps;
+                }
+            }
+        } else {
+            let alive: Vec<usize> = (0..rig.workers.len()).filter(|i| !rig.workers[*i].killed && rig.workers[*i].kind == Kind::Real).collect();
+            let r = rng.next(100);
+            if r < 4 && !alive.is_empty() && step < steps {
+                let idx = alive[rng.next(alive.len())];
+                let id = rig.workers[idx].id;
+                if let Err(e) = rig.kill_worker(idx, true) {
+                    out.violations.push(("hub:close-not-noticed".into(), json!({"worker": id, "error": e})));
+                    break 'steps;
+                }
+                out.faults += 1;
+                out.events.push(json!({"ev": "die", "run": run, "w": id.to_string()}));
+            } else if r < 9 && next_real < 5 && step < steps {
+                let id = next_real;
+                next_real += 1;
+                match rig.start_worker_id(id, Kind::Real) {
+                    Ok(idx) => {
+                        out.faults += 1;
+                        out.events.push(json!({"ev": "start", "run": run, "w": id.to_string(), "boot": rig.workers[idx].boot_requests}));
+                    }
+                    Err(e) => {
+                        out.violations.push(("hub:start-worker".into(), json!({"error": e})));
+                        break 'steps;
+                    }
+                }
+            } else {
+                let (op, o) = if r < 15 {
+                    let (o, _, pb) = rig.save_state(&conc, &save_path, deadline);
+                    for p in pb {
+                        out.violations.push(("save:unreadable".into(), json!({"problem": p})));
+                    }
+                    (json!({"kind": "save"}), o)
+                } else if r < 21 && !rig.has_live_mute() {
+                    (json!({"kind": "load"}), rig.request(RequestType::LoadState(save_path.clone()), deadline))
+                } else {
+                    let c = pick(&uni, &mut rng).clone();
+                    let req = concretise(&conc, &c);
+                    (json!({"kind": "cmd", "c": c}), rig.request(req.request_type.unwrap(), deadline))
+                };
+                out.ops += 1;
+                let verb = if op["kind"] == "cmd" { op["c"]["verb"].as_str().unwrap_or("?").to_string() } else { op["kind"].as_str().unwrap().to_string() };
+                let e = out.verbs.entry(verb.clone()).or_insert((0, 0));
+                match o.verdict.as_str() {
+                    "ok" => { out.oks += 1; e.0 += 1; }
+                    "failure" => { out.failures += 1; e.1 += 1; }
+                    "hang" => hang = true,
+                    other => {
+                        out.violations.push((format!("client:{verb}"), json!({"verdict": other, "message": o.message})));
+                        break 'steps;
+                    }
+                }
+                out.events.push(json!({"ev": "op", "run": run, "op": op, "verdict": o.verdict, "msg": o.message.chars().take(120).collect::<String>()}));
+            }
+        }
+        if let Some(f) = rig.hub_finished() {
+            out.violations.push(("hub-exit".into(), json!({"fate": format!("{f:?}")})));
+            break 'steps;
+        }
+        for (id, how) in rig.unexpected_exits() {
+            out.violations.push(("worker-exit".into(), json!({"worker": id, "how": how, "after": out.events.last()})));
+        }
+        if hang {
+            break 'steps;
+        }
+        let queries = !rig.has_live_mute();
+        let obs = observe_with(&mut rig, &conc, &cert_tokens, deadline, queries);
+        for p in &obs.problems {
+            out.violations.push(("observe:problem".into(), json!({"problem": p, "after": out.events.last()})));
+        }
+        out.events.push(json!({"ev": "view", "run": run, "hv": obs.hv, "queried": queries, "views": obs.views, "heq": obs.hash_eq,
+            "hasfull": obs.main_full.is_some(), "full": obs.main_full.clone().unwrap_or(json!({}))}));
+    }
+    match rig.teardown(Duration::from_secs(5)) {
+        Some(Ok(_)) => {}
+        Some(Err(e)) => out.violations.push(("hub-panic".into(), json!({"panic": e}))),
+        None => out.violations.push(("hub-did-not-stop".into(), json!({}))),
+    }
+    out
+}
 
 fn main() {
     vh::util::quiet_panics();
-    let mut conc = Conc::new(0);
-    conc.set_addr("A1", "127.16.0.1:18080".parse().unwrap());
-    conc.set_addr("A2", "127.16.0.1:18081".parse().unwrap());
-    conc.set_addr("A3", "127.16.0.1:18082".parse().unwrap());
-    let mut rig = Rig::start(&[Kind::Real, Kind::Real], 2).expect("rig");
-    eprintln!("states {:?}", rig.run_states(2));
-    let ldef = |k: &str, a: &str| json!({"k": k, "a": a, "active": false, "ft": 60, "exp": false, "sid": "none", "knob": 0, "shr": 0,
-        "ansP": false, "a404": "-", "a503": "-", "alpn": [], "sni": "none", "mf": 0});
-    let front = |p: &str, a: &str| json!({"p": p, "a": a, "h": "h1", "pk": "prefix", "pv": "/", "m": "none", "cl": "c1", "pos": "tree", "tg": "t0", "rd": "none"});
-    let cmds = vec![
-        json!({"verb": "AddCluster", "v": {"c": "c1", "sticky": false, "lb": "rr", "hc": "none"}}),
-        json!({"verb": "AddHttpFrontend", "f": front("http", "A1")}),
-        json!({"verb": "AddHttpListener", "v": ldef("http", "A1")}),
-        json!({"verb": "DeactivateListener", "k": "http", "a": "A1"}),
-        json!({"verb": "ActivateListener", "k": "http", "a": "A1"}),
-        json!({"verb": "ActivateListener", "k": "http", "a": "A1"}),
-        json!({"verb": "AddHttpFrontend", "f": front("http", "A1")}),
-        json!({"verb": "RemoveHttpFrontend", "f": front("http", "A1")}),
-        json!({"verb": "AddHttpFrontend", "f": front("http", "A1")}),
-        json!({"verb": "AddBackend", "c": "c1", "b": "b1", "x": "x1", "w": 0}),
-        json!({"verb": "AddCluster", "v": {"c": "c2", "sticky": false, "lb": "rr", "hc": "hbad"}}),
-        json!({"verb": "AddTcpFrontend", "c": "c1", "a": "A2", "t": "t0"}),
-    ];
-    for c in &cmds {
-        let req = conc.request(c);
-        let o = rig.request(req.request_type.unwrap(), T);
-        eprintln!("{} -> {} ({}) {} ms: {}", c["verb"], o.verdict, o.processing, o.wall_ms, o.message);
+    let args: Vec<String> = std::env::args().collect();
+    let (mut seed, mut runs, mut steps, mut threads, mut out_path, mut index_base, mut timeout_s, mut certs) =
+        (1u64, 8usize, 40usize, 8usize, String::from("/dev/null"), 0u64, 1u32, true);
+    let mut i = 1;
+    while i < args.len() {
+        match args[i].as_str() {
+            "--seed" => { seed = args[i + 1].parse().unwrap_or(1); i += 1; }
+            "--runs" => { runs = args[i + 1].parse().unwrap(); i += 1; }
+            "--steps" => { steps = args[i + 1].parse().unwrap(); i += 1; }
+            "--threads" => { threads = args[i + 1].parse().unwrap(); i += 1; }
+            "--out" => { out_path = args[i + 1].clone(); i += 1; }
+            "--index-base" => { index_base = args[i + 1].parse().unwrap(); i += 1; }
+            "--timeout" => { timeout_s = args[i + 1].parse().unwrap(); i += 1; }
+            "--no-certs" => certs = false,
+            _ => {}
+        }
+        i += 1;
     }
-    let v = rig.views(&conc, &[], T);
-    eprintln!("views {:?} problems {:?}", serde_json::to_string(&v.by_source), v.problems);
-    eprintln!("hashes {:?}", v.hashes);
-    let path = rig.dir().join("save1.json").to_string_lossy().to_string();
-    let (o, proj, pb) = rig.save_state(&conc, &path, T);
-    eprintln!("save {} {} -> {:?} {:?}", o.verdict, o.message, proj.map(|p| p.to_string()), pb);
-    let idx = rig.start_worker(Kind::Real).expect("late worker");
-    eprintln!("late worker idx {idx} boot requests {}", rig.workers[idx].boot_requests);
-    eprintln!("states {:?}", rig.run_states(2));
-    let v = rig.views(&conc, &[], T);
-    eprintln!("views {:?} problems {:?}", serde_json::to_string(&v.by_source), v.problems);
-    rig.kill_worker(0, true).expect("kill");
-    eprintln!("states {:?}", rig.run_states(2));
-    let o = rig.request(conc.request(&json!({"verb": "RemoveCluster", "c": "c1"})).request_type.unwrap(), T);
-    eprintln!("RemoveCluster -> {} {} ms {}", o.verdict, o.wall_ms, o.message);
-    let o = rig.request(sozu_command_lib::proto::command::request::RequestType::LoadState(path.clone()), T);
-    eprintln!("LoadState -> {} ({}) {} ms {}", o.verdict, o.processing, o.wall_ms, o.message);
-    let v = rig.views(&conc, &[], T);
-    eprintln!("views {:?} problems {:?}", serde_json::to_string(&v.by_source), v.problems);
-    let m = rig.start_worker(Kind::Mute).expect("mute");
-    let o = rig.request(conc.request(&json!({"verb": "RemoveCluster", "c": "c1"})).request_type.unwrap(), T);
-    eprintln!("RemoveCluster with mute worker {m} -> {} {} ms {}", o.verdict, o.wall_ms, o.message);
-    eprintln!("unexpected exits {:?}", rig.unexpected_exits());
-    eprintln!("teardown {:?}", rig.teardown(Duration::from_secs(5)));
+    let t0 = Instant::now();
+    let next = Arc::new(AtomicUsize::new(0));
+    let results: Arc<Mutex<Vec<(usize, RunOut)>>> = Arc::new(Mutex::new(Vec::new()));
+    let mut hs = Vec::new();
+    for _ in 0..threads.max(1) {
+        let (next, results) = (next.clone(), results.clone());
+        hs.push(std::thread::spawn(move || {
+            loop {
+                let r = next.fetch_add(1, Ordering::SeqCst);
+                if r >= runs {
+                    break;
+                }
+                let o = one_run(r, seed, steps, index_base + r as u64, timeout_s, certs);
+                results.lock().unwrap().push((r, o));
+            }
+        }));
+    }
+    for h in hs {
+        let _ = h.join();
+    }
+    let mut results = std::mem::take(&mut *results.lock().unwrap());
+    results.sort_by_key(|(r, _)| *r);
+    let mut f = std::io::BufWriter::new(std::fs::File::create(&out_path).expect("trace file"));
+    let (mut n, mut ops, mut oks, mut failures, mut faults, mut nviol) = (0usize, 0usize, 0usize, 0usize, 0usize, 0usize);
+    let mut verbs: BTreeMap<String, (u64, u64)> = BTreeMap::new();
+    let mut classes: BTreeMap<String, u64> = BTreeMap::new();
+    for (run, r) in &results {
+        for e in &r.events {
+            let mut e = e.clone();
+            e["n"] = json!(n);
+            writeln!(f, "{e}").unwrap();
+            n += 1;
+        }
+        ops += r.ops;
+        oks += r.oks;
+        failures += r.failures;
+        faults += r.faults;
+        for (v, (a, b)) in &r.verbs {
+            let e = verbs.entry(v.clone()).or_insert((0, 0));
+            e.0 += a;
+            e.1 += b;
+        }
+        for (class, detail) in &r.violations {
+            nviol += 1;
+            let c = classes.entry(class.clone()).or_insert(0);
+            *c += 1;
+            if *c <= 2 {
+                vh::util::emit(&json!({"kind": "violation", "class": class, "run": run, "detail": detail}));
+            }
+        }
+    }
+    f.flush().unwrap();
+    vh::util::emit(&json!({"kind": "summary", "runs": results.len(), "events": n, "ops": ops, "ok": oks, "failure": failures, "faults": faults,
+        "violations": nviol, "classes": classes, "verbs_ok_failure": verbs, "wall_s": t0.elapsed().as_secs_f64()}));
 }
